@@ -3,6 +3,7 @@
 # checks that it compiles and passes the pinned suite, runs the check against it, expects a VIOLATION, deletes the copy.
 set -u
 export GOFLAGS=-mod=mod GOPROXY=off GOSUMDB=off GOTOOLCHAIN=local
+V="$(dirname "$(readlink -f "$0")")/.."
 PATCH=$(readlink -f "$1"); PROP=$2; TIER=${3:-quick}
 D=$(mktemp -d /tmp/drill.XXXXXX)
 trap 'rm -rf "$D"' EXIT
@@ -13,7 +14,7 @@ if ! go build ./... 2>/dev/null; then echo "DRILL $(basename $PATCH) $PROP: DOES
 if [ -z "${DRILL_SKIP_SUITE:-}" ]; then
   if ! go test -vet=off -count=1 ./... >/dev/null 2>&1; then echo "DRILL $(basename $PATCH) $PROP: CAUGHT-BY-PINNED-SUITE (not a valid drill)"; exit 3; fi
 fi
-out=$(cd /verif && VERIF_REPO="$D/repo" ./check "$PROP" "$TIER" 2>&1)
+out=$(cd "$V" && VERIF_REPO="$D/repo" ./check "$PROP" "$TIER" 2>&1)
 rc=$?
 if echo "$out" | grep -q "^VIOLATION property=$PROP"; then
   echo "DRILL $(basename $PATCH) $PROP: DETECTED ($(echo "$out" | grep -m1 '^  key=' | cut -c1-150))"
